@@ -135,6 +135,18 @@ Theorem C03_timeline_sampledur_refuted :
 Proof. exact timeline_sampledur_refuted_witness. Qed.
 Print Assumptions C03_timeline_sampledur_refuted.
 
+(** C03_timeline_sampledur_wrong_refuted: the other symptom of the same defect: 2048-sample frames at
+    48 kHz ("mp4a.40.5"), no default sample duration: the MPD code works with 1024; the fourth listed
+    duration is 95232 although the segments are cut on the 2048 grid (96256). *)
+Theorem C03_timeline_sampledur_wrong_refuted :
+  mpd_frame_dur 2048 0 0 48000 = 1024 /\
+  exists l, mpd_audio_timeline 0 0 [(180000, 3)] 90000 2048 0 0 48000 = Ok l /\
+            expand_s 0 l = [(0, 96256); (96256, 96256); (192512, 96256); (288768, 95232)] /\
+            map (image 90000 2048 48000) (expand_ref 0 [(180000, 3)])
+            = [(0, 96256); (96256, 96256); (192512, 96256); (288768, 96256)].
+Proof. exact timeline_sampledur_wrong_witness. Qed.
+Print Assumptions C03_timeline_sampledur_wrong_refuted.
+
 (** the listed pair of a reference entry (T, d) is (start, end - start) of the recipe for that segment *)
 Theorem C03_timeline_recipe : forall r F a nr s e D,
   0 < r -> 0 < F -> 0 < a -> 0 < D -> 0 <= s -> s <= e -> e * a + F * r < two64 ->
